@@ -14,8 +14,7 @@ def run(ctx):
                        "'matching contents' means equal hashes",
                        "a Python str is modelled by its UTF-8 bytes; str.lower() is modelled on ASCII keys (every key the package writes is an "
                        "ASCII literal); int() and str.split() are modelled for ASCII text (the model abstains on other text, counted in "
-                       "wire_model_abstains_non_ascii); decimal formatting '%d' is tied by the correspondence only (its round trip through "
-                       "int() is not proved)",
+                       "wire_model_abstains_non_ascii)",
                        "the phase machine abstracts the content of a block to the handler's verdict; that a refusal leaves the Tub's tables "
                        "untouched is checked on the real code only (malformed_with_existing, accept-decision probe)",
                        "the hello keys my-incarnation / last-connection and the decision key current-connection are C14's and not modelled here"]
